@@ -83,6 +83,9 @@ def fs_version(st):
     return sum(1 for e in st.log if e and e[0] == "Write")
 
 
+EXTRA_FN_MODELS = {}
+
+
 class Models:
     PURE_CONCRETE = {
         len, int, str, bool, sorted, min, max, abs, sum, any, all, list, tuple, dict, set, frozenset, repr,
@@ -95,6 +98,7 @@ class Models:
         self.inline_ok = set()
         self.fn_models = {}
         self.install_default_models()
+        self.fn_models.update(EXTRA_FN_MODELS)  # library functions / classes given a callers' view by a sidecar contract
 
     # ------------------------------------------------------------------ attribute access
     def getattr(self, ex, obj, attr, st, node):
@@ -565,6 +569,8 @@ class Models:
             return list(v)
         if hasattr(v, "__pyvc_iter__"):
             return v.__pyvc_iter__()
+        if isinstance(v, type) and issubclass(v, enum.Enum):
+            return list(v)
         ex.unsupported(node, f"iteration over {v!r}")
 
     def mapping_items(self, ex, v, node):
@@ -1205,6 +1211,8 @@ class Models:
                 return [Val(SymStrSet(args[0]), st)]
             items = self.iter_concrete(ex, args[0], node)
             return [Val(self.mkset(items), st)]
+        if cls in self.fn_models:
+            return self.fn_models[cls](ex, args, kwargs, st, node)
         if cls.__module__.startswith("bumpver"):
             return self.construct_repo_object(ex, cls, args, kwargs, st, node)
         m = self.fn_models.get(cls)
@@ -1487,6 +1495,8 @@ class Models:
 
         def m_hasattr(ex, args, kwargs, st, node):
             obj, name = args
+            if hasattr(obj, "__pyvc_hasattr__"):
+                return [Val(obj.__pyvc_hasattr__(name), st)]
             if isinstance(obj, SRec):
                 return [Val(name in obj.fields, st)]
             if isinstance(obj, SObj):
